@@ -423,6 +423,10 @@ func buildCaseAt(rootName string, rootContent []byte, banned []directive.Enumera
 				outside = false
 			}
 		}
+		// … except the two diagnostics of collectRules that Build.checkRules models: a nameless ENUM, a second ENUM of one name
+		if cl == "required:Name" || cl == "duplicateNames" {
+			outside = false
+		}
 		if outside {
 			bc.Skip = "diagnostic of a stage outside the model"
 		}
